@@ -114,6 +114,10 @@ fn payload_family(tier: &Tier, rng: &mut Rng, w: usize, nw: usize, nrand: usize,
         let maxlen = if rng.chance(1, 10) { 300 } else { 48 };
         v.push(rand_payload(rng, maxlen));
     }
+    // checksums with special values (0000, ffff, bytes equal to 00 / 1b / 1a / 01)
+    if w < 4 {
+        v.extend(crc_special_payloads(rng, if tier.thorough { 8 } else { 1 }));
+    }
     v
 }
 
